@@ -183,7 +183,7 @@ def routes(draw, nl: dict, allow_bench: bool = True):
     if sc and n:
         route['scratch'] = sc
         route['scratch_seed'] = draw(st.integers(0, 40))
-    ob = draw(st.sampled_from([None, None, None, 'copy', 'deepcopy', 'pickle']))
+    ob = draw(st.sampled_from([None, None, None, None, 'copy', 'deepcopy', 'pickle', 'composed']))
     if ob:
         route['obtain'] = ob
     return route
